@@ -141,13 +141,13 @@ def bodies_with_helpers(facts, f, depth=0, seen=None):
     if depth >= 2:
         return out
     for n in walk(f["body"]):
-        if n.get("k") != "Path":
+        if n.get("k") not in ("Path", "MethodCall"):
             continue
         g = facts.fns.get(n.get("rid") or n.get("id"))
-        if g is None or g["id"] in seen or "body" not in g or g["crate"] != f["crate"] or g["kind"] != "Fn":
+        if g is None or g["id"] in seen or "body" not in g or g["crate"] != f["crate"] or g["kind"] not in ("Fn", "AssocFn"):
             continue
-        if not str(g.get("vis", "")).startswith("Restricted") or g["path"] in dom1.EXC or g.get("impl_self"):
-            continue
+        if not str(g.get("vis", "")).startswith("Restricted") or g["path"] in dom1.EXC or " as " in g["path"]:
+            continue        # private free functions and private inherent methods; trait methods are API of their own
         seen.add(g["id"])
         out += bodies_with_helpers(facts, g, depth + 1, seen)
     return out
